@@ -42,13 +42,26 @@ add_field with and without start_update), load() + API mixed, and a real module 
 structures with BOTH a tag and typedef names (`typedef struct _Foo {...} Foo, FooAlias;`).  Oracle: the above plus NAMES: the stub
 declares every name the harness defined (constant, enum, alias, tag, every typedef name) exactly once and nothing else.
 The cases of both go to the Lean model as well (of the routes family: the load, legacy and api route of every set).
+
+Fifth family (harness/v10_c20.py): STUBS REGENERATED AFTER THE DEFINITIONS CHANGED - scripts over the abstract definition sets above, run
+in ONE process on one cstruct object or on two objects holding same-named but different structures (each through a random loading
+route and options): every object is rendered, then 2-8 steps change the definitions through the public API - S.add_field (one commit
+per field / inside start_update()) on top-level structures and unions and on the type of a named nested member (the inline class),
+further definitions through load / loadfile / legacy parser / construction API, cs.add_type(name, <structure of the same name with
+other fields | alias | enum>, replace=True), cs.add_type(tag, <type of a tagged nested member>) (inline becomes global), or nothing -
+and after every step the objects are rendered again through generate_cstruct_stub (default and other cls_name / module_prefix),
+generate_structure_stub under four spellings of its prefixes, and generate_file_stub on a real module exposing the live objects.
+Oracle after every rendering: the property for the CURRENT definitions as the harness maintains them abstractly (names declared exactly
+once, every class and inline class annotating exactly the current data attributes with the prescribed hints and repeating them as
+__init__ keywords, parsed instances providing them; each of two objects its own stub) - never a comparison with an earlier text.  The
+final state of every object goes to the Lean model.
 """
 from __future__ import annotations
 
 import ast
 import keyword
 
-from .. import common, impl, v8_c20, v9_c20
+from .. import common, impl, v8_c20, v9_c20, v10_c20
 from ..common import A, Case, Result, mkrng, parse_sexp, run_driver, sx
 
 KEYWORDS = set(keyword.kwlist)
@@ -473,7 +486,14 @@ def run(env) -> Result:
                 "Fourth family (v9-routes): every set through load, loadfile, split load calls, legacy parser (text and file; legacy-compatible "
                 "sets), construction API (fields at creation / add_field), load+API mixed, generate_file_stub of a real module; same oracle "
                 "plus: the stub declares every name the harness defined exactly once and nothing else (tag and every typedef name of "
-                "`typedef struct _Foo {...} Foo, FooAlias;`). distinct = (definitions, route)")
+                "`typedef struct _Foo {...} Foo, FooAlias;`). distinct = (definitions, route). "
+                "Fifth family (v10-regen): scripts in one process on 1-2 cstruct objects (the second a same-named variant of the first; random "
+                "route and options each): initial rendering, then 2-5 (thorough 2-8) steps of add_field (commit / start_update) on a top-level "
+                "structure or on the type of a named nested member, further load / loadfile / legacy / API definitions, add_type(replace=True) "
+                "with a same-named other structure / alias / enum, add_type of a tagged nested type, or nothing; after every step every entry "
+                "point (generate_cstruct_stub with default and other prefixes, generate_structure_stub under four prefix spellings, now and then "
+                "generate_file_stub on a module exposing the live objects) is evaluated with the v9 oracle against the CURRENT abstract "
+                "definitions. distinct = script")
     m = impl.dc()
     from dissect.cstruct.tools import stubgen as sg  # imported from /repo by impl.dc()
 
@@ -556,6 +576,7 @@ def run(env) -> Result:
     res.sample({"definitions": metas[25][0]["definitions"], "stub": metas[25][1]}) if len(metas) > 25 else None
     multiname_family(env, res, m, sg, viol, lines, metas)
     v9_c20.run_families(env, res, m, sg, _hooks(viol), lines, metas, mkrng)
+    v10_c20.run_families(env, res, m, sg, _hooks(viol), lines, metas, mkrng)
     answers = run_driver(lines) if env["driver_ok"] else [None] * len(lines)
     for (data, stub, sig), ans in zip(metas, answers):
         if ans is None:
@@ -680,6 +701,8 @@ def replay(body) -> int:
     from dissect.cstruct.tools import stubgen as sg
 
     data = body["case"]
+    if str(data.get("family", "")).startswith("v10-"):
+        return v10_c20.replay(m, sg, data, _hooks())
     if str(data.get("family", "")).startswith("v9-"):
         return v9_c20.replay(m, sg, data, _hooks())
     print(data["definitions"])
